@@ -1,6 +1,7 @@
 package hx
 
 import (
+	"encoding/json"
 	"fmt"
 	"os"
 	"testing"
@@ -12,6 +13,18 @@ import (
 // process and prints where the two traces first differ.
 func DebugRun(t *testing.T, p *Prop, run int64, base uint64) {
 	seed := verifsim.Mix(base, uint64(run))
+	// VERIF_DEBUG_PRE=<from>-<to>: execute those runs first (process history), results ignored
+	var from, to int64
+	if n, _ := fmt.Sscanf(os.Getenv("VERIF_DEBUG_PRE"), "%d-%d", &from, &to); n == 2 {
+		step := int64(1)
+		if from > to {
+			step = -1
+		}
+		for r := from; r != to+step; r += step {
+			w, s := p.Gen(verifsim.NewRng(verifsim.Mix(base, uint64(r))), "quick")
+			p.Exec(t, w, s)
+		}
+	}
 	var traces [2][]string
 	var hashes [2]uint64
 	for k := 0; k < 2; k++ {
@@ -21,7 +34,15 @@ func DebugRun(t *testing.T, p *Prop, run int64, base uint64) {
 		if o.Res != nil {
 			traces[k] = o.Res.TraceStrings(0)
 		}
-		fmt.Fprintf(os.Stderr, "exec %d: hash %x outcome %v steps %d violations %v\n", k, o.Hash, o.Res.Outcome, o.Res.Steps, o.Violations)
+		if o.Res == nil {
+			fmt.Fprintf(os.Stderr, "exec %d: hash %x (no simulated run) violations %v discarded %v\n", k, o.Hash, o.Violations, o.Discarded)
+		} else {
+			fmt.Fprintf(os.Stderr, "exec %d: hash %x outcome %v steps %d violations %v\n", k, o.Hash, o.Res.Outcome, o.Res.Steps, o.Violations)
+		}
+		if os.Getenv("VERIF_DEBUG_SAMPLE") != "" {
+			b, _ := json.Marshal(o.Sample)
+			fmt.Fprintf(os.Stderr, "sample %d: %s\n", k, b)
+		}
 	}
 	for i := 0; i < len(traces[0]) || i < len(traces[1]); i++ {
 		a, b := "<end>", "<end>"
